@@ -2,6 +2,7 @@
 # usage: tools/try_seed.sh <patch.diff> <Cxx> [Cyy ...]   -- apply a seeded change to /repo, run the checks, undo it
 patch=$1; shift
 cd /verif
+case "$patch" in /*) ;; *) patch="/verif/$patch";; esac
 git -C /repo apply "$patch" || { echo "patch does not apply"; exit 2; }
 for c in "$@"; do
   echo "== $c"
